@@ -1,4 +1,5 @@
 import BddVerif.Lemmas.SerialIO
+import BddVerif.Model.SerialStd
 import BddVerif.Lemmas.SerialNodes
 import BddVerif.Core.ApplyCanon
 /-!
@@ -216,6 +217,53 @@ theorem io_error_propagates_write (A : Arr) (script : List Ev) :
     rw [asciiBytes_flatten]; rfl
   rw [e] at this
   exact this
+
+/-! ## The instance replayed by the drivers -/
+
+theorem readBytesIOS_eq : ∀ (r : Reader) (acc : Arr), readBytesIOS r acc = readBytesIO r acc := by
+  have e : recordLenS = Gen.recordLen := by decide
+  have d : ∀ buf, decodeNodeS buf = decodeNode buf := fun _ => rfl
+  intro r acc
+  fun_induction readBytesIO r acc with
+  | case1 r acc buf r' hr ih =>
+    rw [readBytesIOS]
+    split
+    · rename_i buf2 r2 heq
+      rw [e, hr] at heq
+      simp only [Prod.mk.injEq, ExactRes.ok.injEq] at heq
+      obtain ⟨rfl, rfl⟩ := heq
+      rw [d]; exact ih
+    · rename_i heq; rw [e, hr] at heq; simp at heq
+    · rename_i heq; rw [e, hr] at heq; simp at heq
+  | case2 r acc r' hr =>
+    rw [readBytesIOS]
+    split
+    · rename_i heq; rw [e, hr] at heq; simp at heq
+    · rename_i r2 heq; rw [e, hr] at heq
+      simp only [Prod.mk.injEq, true_and] at heq; subst heq; rfl
+    · rename_i heq; rw [e, hr] at heq; simp at heq
+  | case3 r acc r' hr =>
+    rw [readBytesIOS]
+    split
+    · rename_i heq; rw [e, hr] at heq; simp at heq
+    · rename_i heq; rw [e, hr] at heq; simp at heq
+    · rename_i r2 heq; rw [e, hr] at heq
+      simp only [Prod.mk.injEq, true_and] at heq; subst heq; rfl
+
+/-- **std_twin_eq**: the instance of the binary reader/writer with the documented layout written out
+    (`Model/SerialStd.lean`, replayed by the drivers so that they build without `Gen/Consts.lean`) is the instance
+    with the regenerated layout (`Model/Serial.lean`, which the theorems above are about) -/
+theorem std_twin_eq :
+    recordLenS = Gen.recordLen ∧ fieldLayoutS = Gen.fieldLayout ∧
+    (∀ nd, encodeNodeS nd = encodeNode nd) ∧ (∀ buf, decodeNodeS buf = decodeNode buf) ∧
+    (∀ A, writeBytesS A = writeBytes A) ∧ (∀ A s, writeBytesIOS A s = writeBytesIO A s) ∧
+    (∀ r acc, readBytesIOS r acc = readBytesIO r acc) ∧ (∀ bs, readBytesS bs = readBytes bs) := by
+  have p : ∀ nd, nodeBytePiecesS nd = nodeBytePieces nd := fun _ => rfl
+  have bp : ∀ A, bytePiecesS A = bytePieces A := by
+    intro A; unfold bytePiecesS bytePieces; congr 1
+  refine ⟨by decide, by decide, fun nd => by unfold encodeNodeS encodeNode; rw [p], fun _ => rfl,
+    fun A => by unfold writeBytesS writeBytes; rw [bp], fun A s => by unfold writeBytesIOS writeBytesIO; rw [bp],
+    readBytesIOS_eq, fun bs => by unfold readBytesS readBytes; rw [readBytesIOS_eq]⟩
 
 /-! ## Non-vacuity: the hypotheses are satisfiable on concrete non-trivial values -/
 
